@@ -1009,10 +1009,10 @@ class ModuleVistor(NodeVisitor):
                 tag = field.tag()
                 if tag == 'return':
                     if not pdoc.has_body:
+                        # The docstring stays as it was written: it is what is shown as
+                        # plain text when rendering the description fails. parsed_docstring
+                        # is set below, so nothing parses the empty-body docstring again.
                         pdoc = field.body()
-                        # Avoid format_summary() going back to the original
-                        # empty-body docstring.
-                        attr.docstring = ''
                     else:
                         # The docstring has its own description: keep the field.
                         other_fields.append(field)
